@@ -132,7 +132,15 @@ def ogginjectOp (a : Args) : String :=
       | .ok data =>
         match loadComment c data with
         | .error e => s!"err {e.name}"
-        | .ok (padding, padData) => s!"ok padding={padding} paddata={hexField padData} data={hexField data}"
+        | .ok (padding, padData) =>
+          -- what VComment.load returns: vendor string and comments `key:value` (hex), "outside" when a key
+          -- has non-ASCII bytes (not modelled)
+          let tags := match loadVC data c.framing with
+            | .ok (vendor, cs, _) =>
+              let kv := if cs.isEmpty then "-" else ",".intercalate (cs.map fun (x : Bytes × Bytes) => s!"{hexField x.1}:{hexField x.2}")
+              s!"vendor={hexField vendor} kv={kv}"
+            | .error _ => "vendor=outside kv=outside"
+          s!"ok padding={padding} paddata={hexField padData} {tags} data={hexField data}"
     | _ => "bad-op"
 
 end Driver
